@@ -259,6 +259,7 @@ def check_first_select(ctx) -> None:
         for cmd in cl.history:
             if cmd.kind == 'select' and cmd.action.get('mailbox') == 'INBOX':
                 maybe.append((cmd.seq_invoke, cmd.seq_return or end_of_time))
+    arrivals = []
     for step, sid, cmd in ctx.started:
         if cmd is None or not cmd.ok or cmd.kind not in ('append', 'copy',
                                                          'move'):
@@ -273,7 +274,23 @@ def check_first_select(ctx) -> None:
         if not code or code[0] not in (b'APPENDUID', b'COPYUID'):
             continue
         uids = code[1][1] if code[0] == b'APPENDUID' else code[1][2]
-        a0, a1 = cmd.seq_invoke, cmd.seq_return
+        arrivals.append((cmd.seq_invoke, cmd.seq_return, uids))
+    # files the delivery agent dropped into new/: their UIDs are learnt from
+    # a dump with bodies
+    dropped = [d for d in getattr(ctx.world, 'deliveries', ())
+               if d['mailbox'] == 'INBOX' and d['subdir'] == 'new']
+    if dropped:
+        from sim.engine import token_of
+        dump = ctx.probe('INBOX', body=True)
+        by_token = {}
+        for uid, rec in (dump['msgs'] if dump else {}).items():
+            by_token[token_of(bytes(rec['body'] or b''))] = uid
+        for d in dropped:
+            tok = token_of(d['data'].encode('latin-1'))
+            if tok in by_token:
+                arrivals.append((d['seq'], d['seq'], [by_token[tok]]))
+                ctx.stat('deliveries_judged')
+    for a0, a1, uids in arrivals:
         if any(s['start_inv'] <= a1 and (s['end'] or end_of_time) >= a0
                for s in sels):
             continue
